@@ -2326,6 +2326,7 @@ def rule_c18_quantiles(ctx, prog, rule="R13"):
                             needs_sw.append((bb_, de_[1], tside, fside))
                 if not needs_sw:
                     continue
+                sites_of = {"lower_index": [], "higher_index": []}
                 for bb_, t_ in g.calls():
                     nm_ = callee_name(t_)
                     which = set()
@@ -2337,15 +2338,34 @@ def rule_c18_quantiles(ctx, prog, rule="R13"):
                                 if isinstance(x, tuple) and x[0] == "call" and x[1] in ("lower_index", "higher_index"):
                                     which.add(x[1])
                     for w_ in which:
+                        sites_of[w_].append(bb_)
                         want = "needs_lower" if w_ == "lower_index" else "needs_higher"
-                        for (sb, pn, tside, fside) in needs_sw:
-                            if sb == bb_:
-                                continue
-                            if branch_dominates(g, sb, fside, bb_) and not branch_dominates(g, sb, tside, bb_):
-                                pol_detail = "%s is %s only when %s(q, len) is false" % (w_, side, pn)
-                            elif pn != want and branch_dominates(g, sb, tside, bb_) and not any(
-                                    p2 == want and branch_dominates(g, s2, t2, bb_) for (s2, p2, t2, _f2) in needs_sw):
-                                pol_detail = "%s is %s under %s instead of %s" % (w_, side, pn, want)
+                        own_true = any(pn == want and sb != bb_ and branch_dominates(g, sb, tside, bb_) for (sb, pn, tside, fside) in needs_sw)
+                        own_false = any(pn == want and sb != bb_ and branch_dominates(g, sb, fside, bb_) and not branch_dominates(g, sb, tside, bb_)
+                                        for (sb, pn, tside, fside) in needs_sw)
+                        other = any(pn != want and sb != bb_ and (branch_dominates(g, sb, tside, bb_) or branch_dominates(g, sb, fside, bb_))
+                                    for (sb, pn, tside, fside) in needs_sw)
+                        if own_false:
+                            pol_detail = "%s is %s only when %s(q, len) is false" % (w_, side, want)
+                        elif not own_true and other and any(pn == want for (_s, pn, _t, _f) in needs_sw):
+                            pol_detail = "%s is %s under the other predicate, not under %s" % (w_, side, want)
+                # coverage: every decision on needs_X has X_index on its true side (a `match (needs_lower, needs_higher)` decides
+                # needs_higher twice – once under each outcome of needs_lower – and each true side must carry the position)
+                for (sb, pn, tside, fside) in needs_sw:
+                    w_ = "lower_index" if pn == "needs_lower" else "higher_index"
+                    ss = sites_of[w_]
+                    # blocks reachable from the true side without re-entering the decision's own dominators (the loop header of the per-q
+                    # loop dominates it: the next iteration is not "the same q")
+                    doms_ = {d_ for d_ in g.live_blocks() if g.dominates(d_, sb)}
+                    seen_, stack_ = set(), [tside]
+                    while stack_:
+                        y_ = stack_.pop()
+                        if y_ in seen_ or y_ in doms_:
+                            continue
+                        seen_.add(y_)
+                        stack_.extend(g.succ(y_))
+                    if ss and not any(x_ in seen_ for x_ in ss):
+                        pol_detail = "%s is not %s on a path where %s(q, len) is true" % (w_, side, pn)
         if ok and pol_detail:
             ok = False
             flow_detail = pol_detail
